@@ -140,7 +140,7 @@ impl Prop for EnumeratedFaults {
         let recs: Vec<NRec> = lenient.recs.iter().map(|r| r.rec.clone()).collect();
         let floor = |byte: u64| lenient.recs.iter().position(|r| r.byte as u64 == byte).or(Some(lenient.recs.len()));
         let run = |fault: Option<(u32, crate::source::EK)>| {
-            let script = Script { chunks: c.chunks.clone(), interrupts: c.interrupts.clone(), fault, sticky: false };
+            let script = Script { chunks: c.chunks.clone(), interrupts: c.interrupts.clone(), fault, sticky: false, payload: c.payload };
             let spec = RunSpec { input: &c.input, cap: c.cap, policy: c.policy, script: &script, ops: &c.ops, model: &m };
             run_ops_fmt(c.format, &spec)
         };
